@@ -162,6 +162,20 @@ theorem removal_ops_canon (l : List CP) (hc : Canon l) :
     apply foldl_discard_canon _ _ l hc
     intro v hv; obtain ⟨n, _, rfl⟩ := List.mem_map.mp hv; simp
 
+/-- F13d witness: `^=` with a plain list whose entries overlap toggles the overlap twice, so the
+result is not the symmetric difference with the operand's set `{1..6}` (3 and 4 stay members).
+Stated on the operand list as the list constructor stores it (`[(1,5),(3,7)]`, already sorted). -/
+theorem ixor_list_overlap_fails :
+    ixor [.rng 0 10] [.rng 1 5, .rng 3 7] = [.one 0, .rng 3 5, .rng 7 10] ∧
+    memL 3 (ixor [.rng 0 10] [.rng 1 5, .rng 3 7]) ∧ memL 3 [.rng 1 5, .rng 3 7] ∧ memL 3 [.rng 0 10] := by
+  decide
+
+/-- PARTIAL (finding F13d): `^=` with a plain list operand is the symmetric difference with the
+(sorted) operand whenever its sorted entries do not overlap. -/
+theorem ixor_list_refines_partial (l o : List CP) (hw : WInv l) (ho : WInv (ofList o)) (x : Nat) :
+    memL x (ixorList l o) ↔ ((memL x l ∧ ¬ memL x (ofList o)) ∨ (¬ memL x l ∧ memL x (ofList o))) :=
+  (step_refines l (.ixor (ofList o)) hw ho).2 x
+
 /-- non-vacuity of `run_refines`: a concrete non-trivial run (a test, not the theorem) -/
 example : run [.add (.rng 2 9), .discard (.one 4), .ixor [.rng 0 3]] [.rng 1 3, .rng 5 7]
     = [.one 0, .one 3, .rng 5 9] := by decide
